@@ -52,6 +52,19 @@ PROPS = {
                  "Vec::extend appends (shim_vec_extend); derived Default of Diagnostics is empty"],
         not_claimed=["phase gating inside compile_files (apply/apply_unsafe)", "what happens inside the generator region (C18)", "exit status 79 path emits an error TEXT, not a diagnostic"],
     ),
+    "C19": dict(
+        units=["plugin_args"],
+        claim="plugin_parser (slicec/src/slice_options.rs, real text incl. the re-targeted `&mut String` buffer) is verified for EVERY input "
+              "string against spec_parse, the generator-specification syntax written from the property: Ok <=> spec accepts, and then path and "
+              "(key, value) pairs are exactly the spec's, trimmed, in order; empty path / empty key / second unescaped '=' / empty string are "
+              "rejected; no reachable panic; terminates.",
+        trusted=["R10 PeekChars shim for `s.chars().peekable()` (thin wrapper over std)",
+                 "str::trim = uninterpreted spec_trim (idempotent); String::push / to_owned / is_empty: vstd specs",
+                 "R12 region: `.into_iter().map(|(k, v)| (k.trim().to_owned(), v.trim().to_owned())).collect()` -> shim_trim_pairs (element-wise trim, order kept) -- a closure with a tuple pattern is not accepted by this Verus",
+                 "clap passes the raw option value to plugin_parser and reports its Err as a usage error; spawn_plugin_process forwards args (C08/C18)"],
+        not_claimed=["the render/parse round-trip lemma over the spec (escaping of ',' and '=') is not yet written; spec_parse itself is the oracle",
+                     "arguments' onward journey to the generator (Arguments encoding is C08's contract)"],
+    ),
     "C20": dict(
         units=["visitor"],
         claim="All twelve visit_with implementations of slicec/src/visitor.rs (real text) are verified to present, to ANY visitor, exactly the "
@@ -115,6 +128,10 @@ NOT_APPLICABLE = {
 }
 
 MANIFEST_TEXT = {
+    "C19": dict(
+        level="Proof (Verus, every input string): plugin_parser's real text - state machine over a peekable char iterator with a re-targeted &mut String buffer - is verified against spec_parse (split at unescaped ',', path may contain '=', first unescaped '=' splits key/value, a second one is an error, backslash escapes only ',' and '=', one trailing comma ignored, components trimmed, empty path/key rejected): r is Ok ==> result == spec, r is Err ==> spec rejects; no panic (the pinned tree's assert on the empty string was a defect, repaired); termination.",
+        design_ref="DESIGN.md section 7, C19", technique="Verus loop invariant with ghost specification state stepped in lock-step; prophecy variables for the live re-targeted borrow",
+        note="Assumed: PeekChars shim, str::trim as uninterpreted idempotent function, the map/collect trimming region. Round-trip lemma render->parse over the spec not written."),
     "C07": dict(
         level="Proof (Verus): on main()'s real control flow (I/O regions replaced by stubs whose PRECONDITION is the permission to run generators) - generators_ran <==> (no error diagnostic from compilation && !dry_run), exit status non-zero <==> an error diagnostic is emitted; the data-structure invariant level==Error <=> kind is Error is established by Diagnostic::new and is why the guard (kinds) and the status (level counts) agree (lemma). compile_from_options: compile_files only without file errors.",
         design_ref="DESIGN.md section 7, C07", technique="Verus contracts + permission preconditions on anchored-region stubs (R12) + ghost flags + counting lemma",
